@@ -13,7 +13,7 @@ from gfv.core import Failure
 PROP = "C08"
 RULE = (
     "(a) mappings of 1-4 word-like keys to 1-3 non-empty values over arbitrary Unicode mixed with the structural "
-    "alphabet (tab, newline, CR, %, ;, =, &, comma, quote, space, controls), printed and re-parsed under a supplied "
+    "alphabet (tab, newline, CR, %, ;, =, &, comma, quote, space, controls, VT/FF/FS, NEL, U+2028/U+2029 and code points above U+00FF), printed and re-parsed under a supplied "
     "dialect: field separator x key/value separator x quoting x repeated keys x trailing semicolon with fmt=gff3, and "
     "GTF-style dialects (fmt=gtf, 'key \"value\"' or 'key value') with values free of ; \" , and controls. Non-trivial = "
     "some value contains a reserved or control character (gff3) / a space, '=', '%' or non-ASCII (gtf). "
